@@ -4,6 +4,9 @@
 # passes without it; the baseline test-suite still passes with it.
 D="$1"; OUT="$2"
 cd "$D" || exit 2
+# one confirmation per worktree at a time; a finished one is not repeated
+exec 9> /tmp/advres/$(basename $D).lock; flock 9
+if [ -f "$OUT" ] && grep -q "passing now: 686" "$OUT"; then cat "$OUT"; exit 0; fi
 export PYTHONPATH="$D/src"
 git diff -- src > /tmp/advres/$(basename $D).cur.diff
 # with the change
